@@ -20,12 +20,12 @@ pub fn property() -> Property {
             "emitted integer bytes are read back with the engine's own CBOR reader (cbor.rs), which shares no code with cbor_event".into(),
         ],
         subchecks: vec![
-            SubCheck { name: "bignum", kind: Kind::Tape { quick: 600_000, thorough: 40_000_000, max_len: 40 }, run: bignum },
-            SubCheck { name: "int", kind: Kind::Tape { quick: 600_000, thorough: 40_000_000, max_len: 40 }, run: int },
+            SubCheck { name: "bignum", kind: Kind::Tape { quick: 3_000_000, thorough: 60_000_000, max_len: 40 }, run: bignum },
+            SubCheck { name: "int", kind: Kind::Tape { quick: 3_000_000, thorough: 60_000_000, max_len: 40 }, run: int },
             SubCheck { name: "int_points", kind: Kind::Enum { count: int_points_count, make: idx_make, exhaustive_note: "every boundary point p and p±1 for p in {0, ±23, ±24, ±2^8, ±2^16, ±2^32, ±2^63, ±2^64} through every Int route" }, run: int_point_case },
-            SubCheck { name: "bigint", kind: Kind::Tape { quick: 200_000, thorough: 10_000_000, max_len: 700 }, run: bigint },
-            SubCheck { name: "value", kind: Kind::Tape { quick: 200_000, thorough: 10_000_000, max_len: 400 }, run: value },
-            SubCheck { name: "int_routes", kind: Kind::Tape { quick: 100_000, thorough: 5_000_000, max_len: 120 }, run: int_routes },
+            SubCheck { name: "bigint", kind: Kind::Tape { quick: 1_000_000, thorough: 20_000_000, max_len: 700 }, run: bigint },
+            SubCheck { name: "value", kind: Kind::Tape { quick: 1_000_000, thorough: 20_000_000, max_len: 400 }, run: value },
+            SubCheck { name: "int_routes", kind: Kind::Tape { quick: 500_000, thorough: 10_000_000, max_len: 120 }, run: int_routes },
         ],
         crash_prone: false,
         max_reject_fraction: 0.05,
